@@ -22,7 +22,8 @@ RUNS = {"quick": 1600, "thorough": 480}
 RULE = ("per run one authentic BF3/BEC2 file (seeded shapes of C01/C02) and a list of single faults, "
         "each applied alone: writer crash at write call k keeping n bytes (simulated, real writer), "
         "every/sampled text prefix, binary prefix, byte replacement (8 bit flips, 00, FF, +1) at "
-        "structural and sampled positions, appended suffixes, session-key bit flips; thorough "
+        "structural and sampled positions, appended suffixes, stale tail of an older longer file (lost truncate), "
+        "512-byte sectors zeroed or holding the older file's data, session-key bit flips; thorough "
         "enumerates ALL cut points and ALL positions x classes per file. evaluations = faults "
         "applied and read back; a run is non-trivial when at least one fault changed the stored "
         "bytes; distinct = distinct event-log digests (file shape x fault outcomes)")
@@ -71,6 +72,10 @@ def gen(st, tier):
         faults.append(["rep", ["end", j], f.choice(CLASSES)])
     for _ in range(3):
         faults.append(["app", f.choice(SUFFIXES)])
+    faults.append(["stale"])
+    for _ in range(3):
+        faults.append(["sector", ["frac", f.random()], f.choice(["zero", "stale"])])
+    faults.append(["sector", ["end", 0], f.choice(["zero", "stale"])])
     if spec["kind"] == "bf3":
         for _ in range(3):
             faults.append(["keybit", f.randrange(128)])
@@ -109,6 +114,10 @@ def _all_faults(text_len, bin_len, kind):
             yield ["rep", ["abs", p], c]
     for s in SUFFIXES:
         yield ["app", s]
+    yield ["stale"]
+    for k in range((text_len + 511) // 512):
+        yield ["sector", ["abs", k * 512], "zero"]
+        yield ["sector", ["abs", k * 512], "stale"]
     if kind == "bf3":
         for i in range(128):
             yield ["keybit", i]
@@ -150,6 +159,7 @@ def run(case):
             faults = _all_faults(len(orig), len(binary), kind)
         fields = refdir.interesting_positions(regions)
         nev = 0
+        old = None
         for ft in faults:
             nev += 1
             fkind = ft[0]
@@ -214,6 +224,22 @@ def run(case):
                 region = "append"
                 out.fired["append"] += 1
                 n = len(orig)
+            elif fkind in ("stale", "sector"):
+                if old is None:
+                    old = _older_longer_file(case, name, fs)
+                if fkind == "stale":
+                    # lost truncate: the new, shorter file is followed by the tail of the older one
+                    damaged = orig + old[len(orig):]
+                    region = "stale-tail"
+                    n = len(orig)
+                    out.fired["stale-tail"] += 1
+                else:
+                    n = (_resolve(ft[1], len(orig)) // 512) * 512
+                    sec = bytes(512) if ft[2] == "zero" else old[n:n + 512]
+                    sec = (sec + bytes(512))[:min(512, len(orig) - n)]
+                    damaged = orig[:n] + sec + orig[n + len(sec):]
+                    region = "sector-" + ft[2]
+                    out.fired["sector-" + ft[2]] += 1
             elif fkind == "keybit":
                 i = ft[1]
                 kb = bytearray(w.key)
@@ -252,7 +278,7 @@ def run(case):
                 ident = "%s@%s:%s" % (fkind, region, diff[0])
             out.ev("fault", fkind, n, region, "ACCEPTED-DIFFERENT", diff[0])
             narrow = dict(case, faults=[[fkind, ["abs", n]] if fkind in ("cut_text", "cut_bin", "crash")
-                                        else ([fkind, ["abs", n], ft[2]] if fkind == "rep" else ft)])
+                                        else ([fkind, ["abs", n], ft[2]] if fkind in ("rep", "sector") else ft)])
             out.fail("C04.accepted-different", ident,
                      "%s file, fault %s (resolved position %d, region %s): reader returned "
                      "different content without error: %s" % (kind, ft, n, region or dropped, diff[1]),
@@ -261,6 +287,23 @@ def run(case):
     finally:
         env.restore_registry()
     return out
+
+
+def _older_longer_file(case, name, fs):
+    """an older version of the file that used to occupy the same blocks: same content plus one more
+    component, written by the real writer on a scratch medium"""
+    extra = {"desc": [[0xC3, "02"]], "blob": {"len": 700, "fill": "rand", "tail0": 0, "s": 4242}, "alen": None,
+             "enc": False}
+    oc = dict(case, obj=dict(case["obj"], components=case["obj"]["components"] + [extra]))
+    fs2 = SimFS()
+    env.bf3file.open = fs2.open
+    try:
+        files.write_file(oc, fs2, env, name)
+        return fs2.files[name]
+    except Exception:
+        return bytes(4096)
+    finally:
+        env.bf3file.open = fs.open
 
 
 def _records(fs, name, w):
